@@ -4,7 +4,7 @@ import NanoVerif.Model.WLearner
   driver family `wl` (C10): one self-contained op per line
 
     wl <kind> <p1> <p2> <crit> <threads> <N> <T> <F> {feature}*F <grads N*T> <base N*T> <samples> <scalemode> <svals>
-       <sub samples> <K> {<samples>}*K  [ | <fitted parameters> ]*
+       <sub samples> <K> {<samples>}*K | <epsilon1> [ | <fitted parameters> ]*
 
   (see harness/c10.cpp for the fields). The model fits stump / hinge / affine / dense / dstep itself (one cache seeing
   all features in order: the result does not depend on the thread assignment when the best candidate is unique,
@@ -44,6 +44,11 @@ structure Spec where
   svals : List Float
   sub : List Nat
   extras : List (List Nat)
+  eps1 : Float          -- `epsilon1<scalar_t>()`, appended by the harness
+
+def expect (kw : String) : Toks → Option Toks
+  | t :: ts => if t = kw then some ts else none
+  | [] => none
 
 def pFeat (N : Nat) : P Feat
   | "S" :: ts => do
@@ -79,7 +84,9 @@ def pSpec : P Spec := fun ts => do
   let (K, ts) ← pNat ts
   let (extras, ts) ← pMany (pList pNat) K ts
   guard (samples.all (· < N) ∧ sub.all (· < N) ∧ extras.all (·.all (· < N)) ∧ ¬ svals.isEmpty ∧ 0 < T)
-  pure ({ kind, p1, p2, crit, N, T, feats, grads, base, samples, scalemode, svals, sub, extras }, ts)
+  let ts ← expect "|" ts
+  let (eps1, ts) ← pFloat ts
+  pure ({ kind, p1, p2, crit, N, T, feats, grads, base, samples, scalemode, svals, sub, extras, eps1 }, ts)
 
 /-- bit `c` of the mask = indicator of label `c` -/
 def maskBits (classes : Nat) (m : Nat) : List Nat := (List.range classes).map fun c => (m >>> c) % 2
@@ -135,7 +142,7 @@ def candidates (sp : Spec) (sel : List Nat) : Option (List (Cand Float) × List 
     some (cs, cs)
   | "affine" =>
     let cs := fs.flatMap fun f => match scalarRows sp sel f with
-      | some rows => (affineCand T clampK sp.crit f rows).toList
+      | some rows => [affineCand sp.eps1 T clampK sp.crit f rows]
       | none => []
     some (cs, cs)
   | "dense" =>
@@ -186,16 +193,12 @@ def fitModel (sp : Spec) (sel : List Nat) : Option (Option Fitted) := do
 
 /-! ### fitted parameters read back from the augmented op (kbest / ksplit / dtree) -/
 
-def expect (kw : String) : Toks → Option Toks
-  | t :: ts => if t = kw then some ts else none
-  | [] => none
-
 def pNode : P (Node Float) := fun ts => do
   let (f, ts) ← pInt ts
   let (thr, ts) ← pFloat ts
   let (next, ts) ← pNat ts
   let (table, ts) ← pInt ts
-  pure (⟨f.toNat, thr, next, table.toNat⟩, ts)
+  pure (⟨f.toNat, thr, next, table⟩, ts)
 
 def vecOf (l : List Float) : Vec Float := fun o => l.getD o 0.0
 
